@@ -20,6 +20,8 @@ SM = "libwild::string_merging::"
 def run(ctx, rep):
     F = ctx.facts(); P = ctx.program()
     rep.rule("addend-once", "the addend reaches the result through exactly one wrapping_add on every path: on the !has_name edge added to the input offset before lookup, on the has_name edge added to the output address after lookup")
+    rep.rule("lookup-both-tables", "every lookup of a string start in find_string consults the primary OffsetMap and, on a miss, the overflow table under the same "
+             "key (a block holds a bounded number of starts; the rest spill to overflowed_string_offsets)")
     rep.rule("fallback-distance", "find_string's backward search looks up `input_offset - i` and returns `found + i` for the same i")
     rep.rule("append-iff-new", "add_string pushes the string and bumps next_offset only inside the or_insert_with closure, and the closure yields the pre-bump offset")
     rep.rule("terminator", "take_string_hashed takes memchr(0)+1 bytes (terminator included) and fails when no terminator exists")
@@ -59,6 +61,7 @@ def run(ctx, rep):
                 o = flow.origin_calls(t["args"][1])
                 rep.ob("addend-once", "lookup-uses-offset", any(c.endswith("::value") for c in o), "find_string is given the symbol value (+addend for section symbols)", g.file, t["l"])
 
+    _lookup_both_tables(rep, P, F)
     fs = F.hir_body(SM + "find_string")
     if fs is None:
         rep.lost("fallback-distance", SM + "find_string")
@@ -150,3 +153,55 @@ def run(ctx, rep):
                                 break
         rep.ob("boundary-string", "index-is-start-minus-1", idx_ok, "a byte is read at an index computed as <range start in section> - 1", pis.file, pis.line)
     rep.assume("equality of output bytes with input bytes at every reference is a run-time matter")
+
+
+def _lookup_both_tables(rep, P, F):
+    from mir import place_chain
+    b = F.body(SM + "find_string")
+    if b is None:
+        rep.lost("lookup-both-tables", SM + "find_string")
+        return
+    flow = P.flow(b)
+    prim = [(bi, t) for bi, t in flow.calls() if (callee_key(t["f"]) or "").endswith("OffsetMap::get")]
+    rep.floor("lookup-both-tables", "primary lookups in find_string (exact offset, backward search)", len(prim), 2)
+    closures = {c.key: c for c in F.closures_of(SM + "find_string")}
+    for n, (bi, t) in enumerate(prim):
+        dest = t["dest"][0]
+        key_src = {x for x in flow.deep_origins(t["args"][-1]) if x[0] == "call" and (x[1] or "").endswith("::add")}
+        ok, why = False, "the result of the primary lookup is used without an or_else fallback"
+        for bj, tt in flow.calls():
+            if not (callee_key(tt["f"]) or "").endswith("Option::or_else") or not tt["args"]:
+                continue
+            if not any(x[0] == "call" and x[2] == bi for x in flow.origins(tt["args"][0])):
+                continue
+            # the closure passed as fallback
+            ck = None
+            cap_src = set()
+            for x in flow.origins(tt["args"][1]):
+                if x[0] == "agg" and str(x[1]) in closures:
+                    ck = closures[str(x[1])]
+            for x in flow.deep_origins(tt["args"][1]):
+                if x[0] == "call" and (x[1] or "").endswith("::add"):
+                    cap_src.add(x)
+            if ck is None:
+                why = "or_else fallback is not a closure of find_string"
+                continue
+            f2 = P.flow(ck)
+            over = False
+            for bk, t3 in f2.calls():
+                if (callee_key(t3["f"]) or "").endswith("HashMap::get") and "overflowed_string_offsets" in place_chain(f2, t3["args"][0])[0]:
+                    over = True
+            same_key = bool(key_src) and key_src <= cap_src
+            ok = over and same_key
+            why = ("falls back to overflowed_string_offsets under the same key" if ok else
+                   f"fallback closure consults overflow table: {over}; same key as the primary lookup: {same_key}")
+        if not ok:
+            # the fallback written in the body itself (match / if let on the primary result)
+            for bk, t3 in flow.calls():
+                if (callee_key(t3["f"]) or "").endswith("HashMap::get") and "overflowed_string_offsets" in place_chain(flow, t3["args"][0])[0]:
+                    k2 = {x for x in flow.deep_origins(t3["args"][-1]) if x[0] == "call" and (x[1] or "").endswith("::add")}
+                    if key_src and key_src <= k2:
+                        ok, why = True, "falls back to overflowed_string_offsets under the same key (in the body)"
+        rep.ob("lookup-both-tables", f"lookup#{n}", ok,
+               why if ok else why + " - a string whose start spilled to the overflow table is not found; the backward search then attributes the reference to an earlier string "
+               "and the pointer lands on unrelated bytes", b.file, t["l"])
